@@ -1,0 +1,44 @@
+//go:build verif
+
+// Contracts for the verif framework (/verif). Comment-only: this file
+// declares nothing and is compiled only with -tags=verif.
+
+package diff
+
+//@ property C08: Diff, lines
+//@ bounded C08: TestVerifBoundedDiff
+
+//@ pure func eqBytes(a []byte, b []byte) bool = len(a) == len(b) && forall K {at(a,K)} :: lo(a) <= K && K < hi(a) ==> at(a,K) == at(b, lo(b) + K - lo(a))
+//@ extern bytes.Equal(a, b) (r)
+//@   pure
+//@   ensures r == eqBytes(a, b)
+//@ extern strings.SplitAfter(s, sep) (r)
+//@   modifies new H_Str
+//@   ensures r != nil && fresh(r) && len(r) >= 1
+//@ extern fmt.Fprintf(w, format, a) (n, err)
+//@   modifies gWritten
+//@   ensures gWritten[unbox(w)] && forall x int {gWritten[x]} :: old(gWritten)[x] ==> gWritten[x]
+//@ extern (*bytes.Buffer).Bytes(b) (r)
+//@   pure
+//@   ensures gWritten[b] ==> r != nil && len(r) > 0
+//@ extern (*bytes.Buffer).WriteString(b, s) (n, err)
+//@   modifies gWritten
+//@   ensures forall x int {gWritten[x]} :: old(gWritten)[x] ==> gWritten[x]
+
+//@ func tgs
+//@   trusted
+//@   modifies new H_S_diff_pair
+//@   ensures result != nil && fresh(result) && len(result) >= 2
+
+// lines: the last element exists (no index panic) for every input.
+//@ func lines
+//@   modifies H_Str, new bytes
+
+// Diff returns nothing exactly when the two texts are byte-identical.
+// (Index safety of the hunk loops relative to tgs is not claimed here: nosafety.)
+//@ func Diff
+//@   nosafety
+//@   loop 1: invariant gWritten[addrOf(out)]
+//@   loop 8: invariant gWritten[addrOf(out)]
+//@   ensures old(eqBytes(old, new)) ==> result == nil
+//@   ensures !old(eqBytes(old, new)) ==> result != nil && len(result) > 0
